@@ -271,3 +271,21 @@ Proof.
   rewrite map_app. cbn [map]. rewrite nth_error_app2; rewrite map_length; [|lia].
   now rewrite Nat.sub_diag.
 Qed.
+
+(* ---------------- HEAD ---------------- *)
+
+Definition with_head (q : request) (h : bool) : request :=
+  mkReq (q_kind q) (q_exc q) (q_tb q) (q_url q) (q_accept q) (q_debug q) h.
+
+(* a HEAD request is answered with the status line and Content-Type of the
+   corresponding GET and an empty body *)
+Lemma head_response (isp : N -> bool) (q : request) :
+  match respond_req isp (with_head q false), respond_req isp (with_head q true) with
+  | Resp st ct _, Resp st' ct' b' => st' = st /\ ct' = ct /\ b' = []
+  | KeyErr, KeyErr => True
+  | _, _ => False
+  end.
+Proof.
+  unfold respond_req, with_head. cbn [q_kind q_exc q_tb q_url q_accept q_debug q_head].
+  destruct (respond_error isp (q_kind q) (q_exc q) (q_tb q) (q_url q) (q_accept q) (q_debug q)); cbn; auto.
+Qed.
